@@ -32,6 +32,9 @@ def run(tier):
     for S, W, live in ([(3, 2, True), (4, 3, False)] + ([(4, 2, True), (5, 3, False)] if thorough else [])):
         r = vlib.tlc_ok(vlib.run_tlc("Gen", gcfg(S, W, "TRUE", live), timeout=900), "Gen")
         run.add_tlc(r, "Gen S=%d W=%d%s" % (S, W, " +liveness" if live else ""))
+    # unbounded depth for fixed constants (typed copy GenApa.tla of the same actions): every handed-out index is held by
+    # exactly one writer or finished, the WaitGroup counts the unfinished ones => FilesWhereTold
+    vlib.apalache_inductive(run, "GenApa", "CInitBig" if thorough else "CInitSmall", safety=("FilesWhereTold",))
     vlib.coverage_audit(run, "Gen", [gcfg(3, 2, "TRUE", False)], ["MainAdd", "MainOffer", "MainSentAll", "MainExit", "Recv", "Open", "WriteClose", "Done"])
     r = vlib.run_tlc("Gen", gcfg(2, 2, "FALSE", False), timeout=300)
     if r.violated not in ("FilesWhereTold", "NothingElsewhere"):
